@@ -45,6 +45,7 @@ pub const K_RAWFD: i64 = 108; // (case, stream, dev, ino) of the descriptor hand
 pub const K_BASE_PROC: i64 = 109; // (pid, pgid, uid, gid)
 pub const K_PIPE_READ: i64 = 110; // (case, stream, total bytes or -1, 0); bytes follow as BYTES tag 1000+stream
 pub const K_SECOND_WAIT: i64 = 111; // (case, kind, status-or-code, 0) second wait() on the same child
+pub const K_SPAWN_ENTER: i64 = 112; // (case, 0,0,0) immediately before Command::spawn (and before injections are armed)
 pub const K_PARSE_ERR: i64 = 199; // (line number)
 
 mod sys {
@@ -662,6 +663,8 @@ fn report_wait(kind_marker: i64, id: i64, r: tiny_std::Result<i32>, extra: i64) 
 }
 
 fn spawn_and_observe(cmd: &mut Command, id: i64, root_pid: i64, st: &mut St, payload: &[u8]) {
+    // everything the caller does from here to the RETURNED marker happens inside Command::spawn
+    marker::report(K_SPAWN_ENTER, id, 0, 0, 0);
     for j in st.inj.drain(..) {
         marker::inject(j[0], j[1], j[2], j[3], j[4]);
     }
